@@ -206,7 +206,7 @@ def make_a64(rng, name, shape=None):
         return f
     if shape == "frameless":
         f.can_call = False
-        n = 16 * rng.range(1, 64)
+        n = 16 * rng.range(1, 64) if rng.chance(2, 3) else rng.choice([0x1000, 0x2000, 0x3000, 0xf000])     # 4 KiB and more: sub / add with lsl #12
         f.emit(I("sub", n), "prologue", a_sub_sp(n))
         for _ in range(rng.range(1, 4)):
             f.emit(I("fill"), "body", rng.choice(A_FILL))
@@ -220,7 +220,7 @@ def make_a64(rng, name, shape=None):
         return f
     signing = rng.chance(1, 4)
     npairs = rng.range(1, 4) if shape == "frame-pairs" else 0
-    alloc = 16 * rng.range(0, 8)
+    alloc = 16 * rng.range(0, 8) if rng.chance(3, 4) else rng.choice([0x1000, 0x2000, 0x5000])
     pairs = [(20, 19), (22, 21), (24, 23), (26, 25), (28, 27)][:npairs]
     if signing:
         f.emit(I("pacibsp"), "prologue", A_PACIBSP)
@@ -361,6 +361,23 @@ def make_program(rng, arch, nfuncs=8):
     for f in funcs:
         if f.dwarf:
             f.darwin_cfi = rng.chance(1, 2)
+    # some functions never return: their last instruction is a call (abort, a throw helper), so the return address of
+    # that call is the END of the function - the start of whatever follows it
+    cand = [f for f in funcs if f.can_call and f.shape not in ("null-leaf", "null-fp", "frameless0")]
+    chosen = [f for f in cand if rng.chance(1, 4)]
+    for want_dwarf in (True, False):          # at least one DWARF-deferred and one compact-unwind function of this kind
+        if not any(f.dwarf == want_dwarf for f in chosen):
+            more = [f for f in cand if f.dwarf == want_dwarf]
+            if more:
+                chosen.append(rng.choice(more))
+    for f in funcs:
+        if f in chosen:
+            k = next((i for i, (o, ins, ph) in enumerate(f.insns) if ph == "epilogue"), None)
+            if k is not None and k > 0:
+                f.insns = f.insns[:k]
+                f.length = f.insns[-1][0] + len(f.insns[-1][1].raw)
+                f.emit(I("call" if arch == "x86" else "bl"), "body", x_call(rng) if arch == "x86" else a_word(0x94000000 | rng.below(1 << 26)))
+                f.noreturn = True
     rng.shuffle(funcs)
     pos = 0x1000
     gran = 1 if arch == "x86" else 4
